@@ -21,6 +21,8 @@ def run(rep, tier):
     H.r_crossed_table(rep, hc)
     H.r_prev_update(rep, hc)
     H.r_evt_loop_one(rep, hc)
+    rep.rule("R-EVT-PAIR", "every evaluation of the event functions in the handler is made at a consistent (time, state) pair: (x, y) or (t, interpolant(t)) for the same t")
+    H.r_evt_eval_pair(rep, hc)
     acc_rule(rep, f, rule="R-SOLOUT-ONCE")
     rep.explanation = ("Largely decided structurally: complete truth table of the sign-change test, previous-value bookkeeping on all paths, "
                        "exactly one record per crossing per step, every accepted step reaches the handler once. Not decided: root location accuracy.")
